@@ -35,6 +35,8 @@ class Recorder:
         self.queues = []
         self.procs = []
         self.events = []
+        self.exitcode_value = 0       # what recorded fake processes report
+        self.alive_value = True
 
 
 def recording_mp(rec, queue_script=None):
@@ -106,11 +108,11 @@ def recording_mp(rec, queue_script=None):
         @property
         def exitcode(self):
             rec.ops.append(("exitcode", self.wid))
-            return 0
+            return rec.exitcode_value
 
         def is_alive(self):
             rec.ops.append(("is_alive", self.wid))
-            return True
+            return rec.alive_value
 
     return types.SimpleNamespace(Queue=Q, Event=E, Process=P)
 
@@ -129,16 +131,21 @@ class patched_mp:
         return False
 
 
-def extract_producer(run_entry, queue_script=None):
+def extract_producer(run_entry, queue_script=None, exitcode=0, alive=True):
     """Run the real entry point (a callable taking no arguments) with recording fakes. Returns the Recorder."""
     rec = Recorder()
+    rec.exitcode_value, rec.alive_value = exitcode, alive
     fake = recording_mp(rec, queue_script)
+    rec.raised = None
     with patched_mp(fake):
         try:
             run_entry()
             rec.returned = True
         except Stop:
             rec.returned = False
+        except Exception as e:          # the entry point reports a failure to its caller
+            rec.returned = False
+            rec.raised = "%s: %s" % (type(e).__name__, e)
     return rec
 
 
@@ -253,7 +260,7 @@ NOTPUT, INBUF, INPIPE, HELD, RUNNING, CBDONE, FINISHED, LOST = range(8)
 W_NOTSTARTED, W_IDLE, W_BUSY, W_EXITED, W_DEAD = range(5)
 
 
-def stage_ts(script, table, n_workers, fault=False):
+def stage_ts(script, table, n_workers, fault=False, detects=True):
     """script: producer ops [('start', w) | ('put', q, item) | ('close', q) | ('join_thread', q) | ('set',) | ('join', w)
     | ('exitcode', w) ...]; table: worker reaction table; fault: one callback (symbolic item) raises."""
     ts = bmc.TS("stage")
@@ -311,7 +318,7 @@ def stage_ts(script, table, n_workers, fault=False):
             w = op[1]
             # reading the exit code of a joined worker: a failure becomes visible (the producer raises)
             ts.t("exitcode w%d" % w, "main", at,
-                 (lambda pc, w: (lambda s: {"pc": bmc.bv(pc + 1, 8), "raised": z3.If(s["ws%d" % w] == W_DEAD, bmc.bv(1, 1), s["raised"])}))(pc, w))
+                 (lambda pc, w: (lambda s: {"pc": bmc.bv(pc + 1, 8), "raised": z3.If(s["ws%d" % w] == W_DEAD, bmc.bv(1 if detects else 0, 1), s["raised"])}))(pc, w))
         else:   # close, is_alive, anything without effect on the model
             ts.t(kind, "main", at, nxt)
     ts.end_pc = end
@@ -678,7 +685,8 @@ def learn_dispatcher(make_pyramid, parent, children, depth_label=""):
 WT_NOTREADY, WT_RBUF, WT_RPIPE, WT_HELD, WT_RUN, WT_CBDONE, WT_DBUF, WT_DPIPE, WT_CONS, WT_LOST = range(10)
 
 
-def walk_ts(tree, n_workers, R, worker_post, done_maxsize, shutdown, fault=False, max_live_seeds=None, apex_breaks=True):
+def walk_ts(tree, n_workers, R, worker_post, done_maxsize, shutdown, fault=False, max_live_seeds=None, apex_breaks=True,
+            loop_detects_dead=False, detects=True):
     """tree: list of dicts(name, parent (index or None), bit, seed (bool: level == depth-1)).  The last entry is the apex.
     Liveness of every seed tile is a symbolic Boolean; an upper tile is live iff one of its children in the tree is.
     R: learned release table; shutdown: producer ops after the loop, e.g. ['close','join_thread','set','join','join'].
@@ -770,12 +778,15 @@ def walk_ts(tree, n_workers, R, worker_post, done_maxsize, shutdown, fault=False
             ts.t("join w%d" % w, "main", (lambda k, w: (lambda s: z3.And(s["pcd"] == k + 1, s["wx%d" % w] != 0)))(k, w), nx)
         elif op[0] == "exitcode":
             w = op[1]
-            ts.t("exitcode w%d" % w, "main", at, (lambda k, w: (lambda s: {"pcd": bmc.bv(k + 2, 5), "raised": z3.If(s["wx%d" % w] == 2, bmc.bv(1, 1), s["raised"])}))(k, w))
+            ts.t("exitcode w%d" % w, "main", at, (lambda k, w: (lambda s: {"pcd": bmc.bv(k + 2, 5), "raised": z3.If(s["wx%d" % w] == 2, bmc.bv(1 if detects else 0, 1), s["raised"])}))(k, w))
         else:
             ts.t(str(op), "main", at, nx)
     ts.end_pcd = len(shutdown) + 1
-    # a dispatcher that polls worker liveness inside its loop notices a dead worker on a time-out
-    ts.loop_checks_alive = False
+    # a dispatcher that polls worker liveness inside its loop notices a dead worker on a receive time-out
+    if loop_detects_dead:
+        ts.t("detect-dead-worker", "main",
+             lambda s: z3.And(s["pcd"] == 0, z3.Or(*[s["wx%d" % w] == 2 for w in range(W)]), z3.And(*[s["st%d" % i] != WT_DPIPE for i in range(N)])),
+             lambda s: {"pcd": bmc.bv(len(shutdown) + 1, 5), "raised": bmc.bv(1, 1)})
     # ---- feeders
     for i, t in enumerate(tree):
         ts.t("flush-ready %s" % t["name"], "feeder:main", (lambda i: (lambda s: s["st%d" % i] == WT_RBUF))(i), (lambda i: (lambda s: {"st%d" % i: bmc.bv(WT_RPIPE, 4)}))(i))
